@@ -132,6 +132,17 @@ _MIX = {}
 
 def mix_syms(A, B):
     """(values by symbol, symbols representable in A, symbols representable in B)"""
+    if (A, B) not in _MIX and (A in _FBITS or B in _FBITS):
+        # an integer column against a floating-point one: halves (exactly representable; a cast of the float side to the
+        # integer dtype truncates 1.5 to 1 and 7.5 to 7, which are keys of the integer side).  Values far below 2^24.
+        vals = [-1.5, -1.0, -0.5, 1.0, 1.5, 2.0, 2.5, 7.0, 7.5, 8.0]
+
+        def ok(d):
+            if d in _FBITS:
+                return list(range(len(vals)))
+            lo, hi = _dt_range(d)
+            return [k for k, v in enumerate(vals) if v == int(v) and lo <= v <= hi]
+        _MIX[(A, B)] = (vals, ok(A), ok(B))
     if (A, B) not in _MIX:
         (la, ha), (lb, hb) = _dt_range(A), _dt_range(B)
         ws = sorted({int(''.join(ch for ch in d if ch.isdigit())) for d in (A, B)})
@@ -147,8 +158,14 @@ def _keys(case, xs, side='L'):
         A, B = case['kmx']
         vals = mix_syms(A, B)[0]
         kd = A if side == 'L' else B
-        lo, hi = _dt_range(kd)
         ks = [vals[k] for k in xs]
+        if kd in _FBITS:
+            return _np.asarray(ks, dtype=kd), kd
+        if A in _FBITS or B in _FBITS:
+            if not all(v == int(v) for v in ks):
+                raise AssertionError('generator: key symbol not representable in ' + kd)
+            ks = [int(v) for v in ks]
+        lo, hi = _dt_range(kd)
         if not all(lo <= v <= hi for v in ks):
             raise AssertionError('generator: key symbol not representable in ' + kd)
         return _np.asarray(ks, dtype=kd), kd
@@ -976,7 +993,7 @@ def features(case, model):
         if ff[1] != 'b' and not case['ru']: f.append('flag:non-bool-falsy-right-hint')
         if ff[0] != 'b' and not case['lu'] and len(set(case['L'])) < len(case['L']):
             f.append('flag:non-bool-falsy-hint-with-duplicates-on-that-side')
-        if ff[1] != 'b' and not case['ru'] and len(set(case['R'])) < len(case['R']):
+        if ff[1] != 'b' and not case['ru'] and len(set(case['R'])) < len(case['R']) and f[-1] != 'flag:non-bool-falsy-hint-with-duplicates-on-that-side':
             f.append('flag:non-bool-falsy-hint-with-duplicates-on-that-side')
     if case.get('csf'): f.append('chunksize-form:' + case['csf'])
     if case.get('invf'): f.append('invalid-marker-form:' + case['invf'])
@@ -986,9 +1003,15 @@ def features(case, model):
         f.append('mixed-key-dtypes'); f.append('mixed-key-dtypes:%s/%s' % (A, B))
         vals, okA, okB = mix_syms(A, B)
         Ls, Rs = case.get('L', case.get('F', [])), case.get('R', case.get('T', []))
-        (la, ha), (lb, hb) = _dt_range(A), _dt_range(B)
-        wa, wb = ha - la + 1, hb - lb + 1
         lv, rv = {vals[k] for k in Ls}, {vals[k] for k in Rs}
+        if A in _FBITS or B in _FBITS:
+            f.append('mixed-key-dtypes:integer-against-float')
+            fr, it = (lv, rv) if A in _FBITS else (rv, lv)
+            if any(v != int(v) and int(v) in it for v in fr): f.append('float-key-truncates-to-a-key-of-the-integer-side')
+            la = ha = lb = hb = 0; wa = wb = 1; lv = rv = set()
+        else:
+            (la, ha), (lb, hb) = _dt_range(A), _dt_range(B)
+            wa, wb = ha - la + 1, hb - lb + 1
         wrapA = lambda v: (v - la) % wa + la
         wrapB = lambda v: (v - lb) % wb + lb
         if any(not (la <= v <= ha) and wrapA(v) in lv for v in rv): f.append('right-key-collides-with-a-left-key-when-cast-to-the-left-dtype')
@@ -1824,15 +1847,16 @@ def _gen_flagforms(big, rng):
 
 
 MIX_QUICK = [('int32', 'int64'), ('int64', 'int32'), ('int8', 'uint8'), ('uint8', 'int8'), ('int64', 'uint64'), ('uint16', 'int64'),
-             ('int16', 'int8'), ('uint32', 'int32')]
+             ('int16', 'int8'), ('uint32', 'int32'), ('int32', 'float64'), ('float64', 'int64')]
 MIX_MORE = [('uint64', 'int64'), ('int64', 'uint16'), ('int8', 'int16'), ('int32', 'uint32'), ('uint8', 'int64'), ('int16', 'int32'),
-            ('uint32', 'uint64'), ('int64', 'int8')]
+            ('uint32', 'uint64'), ('int64', 'int8'), ('uint8', 'float32'), ('float32', 'int16')]
 
 
 def _mix_pairs(big):
     from harness import hot
     if big:
-        return [(a, b) for a in INT_DTYPES for b in INT_DTYPES if a != b]
+        return [(a, b) for a in INT_DTYPES for b in INT_DTYPES if a != b] + \
+               [p for d in ('int8', 'int32', 'int64', 'uint16', 'uint64') for fl in ('float32', 'float64') for p in ((d, fl), (fl, d))]
     return MIX_QUICK + (MIX_MORE if hot.changed() else [])      # one numba specialisation of every kernel per pair: a sample
 
 
@@ -2140,7 +2164,8 @@ RULE = ('exhaustive over order-types: every pair of non-decreasing key sequences
         'different integer dtypes (quick: 8 ordered pairs, 16 when a source changed; thorough: all 56) holding values outside '
         'the other side\'s range that collide with a key there under a cast (c + s*2^w, c in {-1,1,2,7}: wrap-around at '
         '8/16/32/64 bits, sign reinterpretation) through ordered_merge_left/right (10 forms), ordered_merge_inner (4 forms), '
-        'merge_left/right/inner and get_index.')
+        'merge_left/right/inner and get_index; an integer key column against a float32/float64 one holding halves (a cast '
+        'to the integer dtype truncates 1.5 to the key 1) in the same forms (quick 2 pairs, thorough 20).')
 EXHAUSTIVE = {'quick': True, 'thorough': True}
 TRUSTED = ['numba code generation; numpy fancy indexing / boolean masks; MemoryField write / write_part (modelled as append)',
            'key columns: the model joins the key SYMBOLS, the real call their image under a strictly increasing map into the key '
@@ -2158,8 +2183,9 @@ ASSUMPTIONS = ['ordered_* forms: keys sorted ascending, uniqueness flags truthfu
                'a sink has the dtype of its source, or is an integer sink wide enough for every value of an integer/bool source '
                '(conversions from/to floating point and narrowing are not modelled and not generated); ndarray sinks have the '
                'source dtype (numba cannot compile map_valid for two different array types: observation O-C19f)',
-               'key columns of both sides have the same dtype or two (different) integer dtypes; an integer key column against a '
-               'floating-point one is not generated (what equality means beyond 2^53 is not stated); float keys are not NaN',
+               'key columns of both sides have the same dtype, two different integer dtypes, or an integer and a floating-point '
+               'dtype with values the float dtype represents exactly (halves below 2^24; what equality of an int64 and a float64 '
+               'beyond 2^53 means is not stated, not generated); float keys are not NaN',
                'uniqueness hints are values that are == True or == False (bool, numpy bool, 0/1 integers, 0-d boolean array); '
                'None, strings and other objects are not generated',
                'ndarray destination arrays are zero-initialised by the caller',
